@@ -14,4 +14,4 @@ def run(report):
     report.assume("A-BUILTIN: eval(repr(x)) == x for str/int/tuple, pickle preserves slots, __dict__ and cycles",
                   "the recursive text of _format_dump and the splice property of RefactoringNormalizer.visit are decided by "
                   "the bounded stand-in, not by discharged VCs")
-    run_bounded(report, ['stmt'])
+    run_bounded(report, ['stmt'], scale=0.5)
